@@ -629,8 +629,12 @@ func (prop) Generate(r *core.RNG, tier string) []json.RawMessage {
 	for _, c := range baseNameInputs(r.Fork(), tier) {
 		out = append(out, enc(c))
 	}
+	for _, c := range aliasInputs(r.Fork(), tier) {
+		out = append(out, enc(c))
+	}
 	// a third of the generic / tree / random packages below is renamed with names of mixed shapes, a fifth of the random
-	// stream is generated under another output file base name (own generator: the stream itself stays as it was)
+	// stream is generated under another output file base name, a quarter of it has 40% of its fields declared through
+	// aliases (own generator: the stream itself stays as it was)
 	rn := r.Fork()
 	vary := func(in Input, names, base bool) Input {
 		if names && rn.Chance(33) {
@@ -638,6 +642,9 @@ func (prop) Generate(r *core.RNG, tier string) []json.RawMessage {
 		}
 		if base && rn.Chance(20) {
 			in.Base = core.Pick(rn, baseNames)
+		}
+		if base && in.ShadowPkg == "" && rn.Chance(25) {
+			in = aliasify(rn.Fork(), in, 40)
 		}
 		return in
 	}
@@ -701,7 +708,7 @@ func (prop) Shrink(raw json.RawMessage) []json.RawMessage {
 	referenced := func(c *Input, name string) bool {
 		for _, d := range c.Decls {
 			for _, f := range d.Fields {
-				if (f.K == KNamed || f.K == KPtr || f.K == KSliceOf) && f.A == name {
+				if (f.K == KNamed || f.K == KPtr || f.K == KSliceOf || f.K == KAlias) && f.A == name {
 					return true
 				}
 				for _, a := range f.Args { // a type argument
@@ -710,8 +717,30 @@ func (prop) Shrink(raw json.RawMessage) []json.RawMessage {
 					}
 				}
 			}
+			if d.Of != nil && (d.Of.A == name || d.Of.B == name) {
+				return true
+			}
+			if d.Of != nil {
+				for _, a := range d.Of.Args {
+					if a == name {
+						return true
+					}
+				}
+			}
 		}
 		return false
+	}
+	// a field declared through an alias: declared with the type the alias denotes
+	for i := range in.Decls {
+		for j, f := range in.Decls[i].Fields {
+			if f.K == KAlias {
+				if r := in.resolve(f); r.K != KAlias {
+					c := clone()
+					c.Decls[i].Fields[j] = r
+					out = append(out, enc(c))
+				}
+			}
+		}
 	}
 	// drop a declaration nobody refers to
 	for i := range in.Decls {
